@@ -10,7 +10,7 @@ ASSUMPTIONS = ['only sequentially consistent interleavings are explored: weak ex
                'object (store buffering effects between atomics, e.g. dropped seq_cst fences) are outside this check',
                'production build variant only (explicit fences); the TSAN_MEMORY_ORDER variant is not covered',
                'mixed atomic/plain accesses to one location and memcpy of payloads are not checked']
-TIMEOUT = {'quick': 400, 'thorough': 2400}
+TIMEOUT = {'quick': 900, 'thorough': 2400}
 
 
 def scenarios(tier):
